@@ -67,8 +67,35 @@ theorem neg_ok (i : Nat) (h0 : 0 < i) (h : i < 2 ^ 63) : Rs.neg 64 i = Res.ok (n
     exact absurd h (by decide)
   rw [Rs.neg, if_neg hne, negPat, Nat.mod_eq_of_lt (by omega)]
 
+/-- `idx.wrapping_neg()` is the same bit pattern (robustness: the source may compute `-idx` on `usize` instead of `isize`) -/
+theorem wrappingNeg_eq (i : Nat) (h0 : 0 < i) (h : i < 2 ^ 63) : Rs.wrappingNeg 64 i = negPat i := by
+  rw [Rs.wrappingNeg, negPat, Nat.mod_eq_of_lt (by omega), Nat.mod_eq_of_lt (by omega)]
+
 theorem and_negPat (i : Nat) (h0 : 0 < i) (h : i < 2 ^ 63) : i &&& negPat i = lowbit i :=
   and_neg_eq_lowbit 64 i h0 (by omega)
+
+/-- `idx & (idx - 1)` clears the lowest set bit (robustness: the other common way to write the `get` step) -/
+theorem and_pred : ∀ (n i : Nat), i < n → 0 < i → i &&& (i - 1) = i - lowbit i := by
+  intro n
+  induction n with
+  | zero => intro i h; omega
+  | succ n ih =>
+    intro i hn h0
+    generalize hX : i &&& (i - 1) = X
+    have hdiv : X / 2 = i / 2 &&& (i - 1) / 2 := by rw [← hX, Nat.and_div_two]
+    have hmod : X % 2 = 1 ↔ i % 2 = 1 ∧ (i - 1) % 2 = 1 := by rw [← hX]; exact Nat.and_mod_two_eq_one
+    have hm0 : X % 2 ≠ 1 := fun h => by have := hmod.mp h; omega
+    by_cases hodd : i % 2 = 1
+    · rw [lowbit_odd i hodd]
+      have e : (i - 1) / 2 = i / 2 := by omega
+      rw [e, Nat.and_self] at hdiv
+      omega
+    · have heven : i % 2 = 0 := by omega
+      rw [lowbit_even i h0 heven]
+      have e : (i - 1) / 2 = i / 2 - 1 := by omega
+      rw [e, ih (i / 2) (by omega) (by omega)] at hdiv
+      have := lowbit_le (i / 2)
+      omega
 
 /-! ### `get` -/
 
@@ -92,8 +119,11 @@ theorem get_while_eq (op : α → α → α) (dflt : α) (tree : List α) (hlen 
       have e1 : Rs.idx tree idx = Res.ok (tree.getD idx dflt) := by
         rw [getD_of_lt tree idx dflt hidx]; exact Rs.idx_ok hidx
       have e2 : Rs.neg 64 idx = Res.ok (negPat idx) := neg_ok idx hpos (by omega)
+      have e2' : Rs.wrappingNeg 64 idx = negPat idx := wrappingNeg_eq idx hpos (by omega)
       have e3 : Rs.sub idx (idx &&& negPat idx) = Res.ok (idx - lowbit idx) := by
         rw [and_negPat idx hpos (by omega)]; exact Rs.sub_ok hll
+      have e4 : Rs.sub idx 1 = Res.ok (idx - 1) := Rs.sub_ok (by omega)
+      have e5 : idx &&& (idx - 1) = idx - lowbit idx := and_pred (idx + 1) idx (by omega) hpos
       obtain ⟨i', hi'⟩ := ih (idx - lowbit idx) (op sum (tree.getD idx dflt)) (by omega) (by omega)
       refine ⟨i', ?_⟩
       cases f with
@@ -101,7 +131,7 @@ theorem get_while_eq (op : α → α → α) (dflt : α) (tree : List α) (hlen 
       | succ f' =>
         simp only [Nat.add_sub_cancel, List.getD_eq_getElem?_getD] at hi' e1 ⊢
         rw [get_while1]
-        simp [getLoop, hpos, e1, e2, e3, hi']
+        simp [getLoop, hpos, e1, e2, e2', e3, e4, e5, hi']
     · have h0 : idx = 0 := by omega
       subst h0
       refine ⟨0, ?_⟩
@@ -150,6 +180,7 @@ theorem set_while_eq (op : α → α → α) (dflt val : α) :
       have e0 : tree.getD idx dflt = tree[idx] := getD_of_lt tree idx dflt hidx
       have e1' : ∀ v : α, Rs.setIdx tree idx v = Res.ok (tree.set idx v) := fun v => Rs.setIdx_ok hidx
       have e2 : Rs.neg 64 idx = Res.ok (negPat idx) := neg_ok idx hpos (by omega)
+      have e2' : Rs.wrappingNeg 64 idx = negPat idx := wrappingNeg_eq idx hpos (by omega)
       have e3 : Rs.add 64 idx (idx &&& negPat idx) = Res.ok (idx + lowbit idx) := by
         rw [and_negPat idx hpos (by omega)]; exact Rs.add_ok (by omega)
       obtain ⟨i', hi'⟩ := ih (idx + lowbit idx) (tree.set idx (op tree[idx] val)) (by omega)
@@ -160,7 +191,7 @@ theorem set_while_eq (op : α → α → α) (dflt val : α) :
       | succ f' =>
         simp only [Nat.add_sub_cancel] at hi' ⊢
         rw [set_while1, setLoop, e0]
-        simp [hidx, e1, e1', e2, e3, hi']
+        simp [hidx, e1, e1', e2, e2', e3, hi']
     · refine ⟨idx, ?_⟩
       cases f with
       | zero => simp [set_while1, setLoop, hidx]
